@@ -46,3 +46,17 @@ Open Scope string_scope.
     for n in ("linear_backward", "ste_backward", "grad_prints"):
         t += f"Lemma tie_{n} : src_{n} = exp_{n}. Proof. reflexivity. Qed.\n"
     return t
+
+
+def awq_tie_text():
+    return """(* Tie (assembled per check): AWQ facts read from the current source are the modelled ones. *)
+From Coq Require Import String List ZArith.
+From QV Require Import Model.Awq Model.AwqFacts.
+From QD Require Import GenAwq.
+Import ListNotations.
+Open Scope string_scope.
+Lemma tie_awq_order : src_AWQ_ORDER = AWQ_ORDER. Proof. reflexivity. Qed.
+Lemma tie_awq_reverse_order : src_AWQ_REVERSE_ORDER = AWQ_REVERSE_ORDER. Proof. reflexivity. Qed.
+Lemma tie_v2_constants : src_v2_constants = exp_v2_constants. Proof. reflexivity. Qed.
+Lemma tie_awq_prints : src_awq_prints = exp_awq_prints. Proof. reflexivity. Qed.
+"""
